@@ -1,6 +1,6 @@
 (* C11 over the definitions regenerated from the source (Gen/Src.v). Statements only. *)
 From MV Require Import Base RotLemmas Record Regex Shape Typing Assembly Pipeline StrandLemmas NextLevel
-     Anchors Canonical Py PyObj SrcEquivAssembly SrcGlue SrcEndToEnd.
+     Anchors Canonical Py PyObj SrcEquivAssembly SrcGlue SrcEndToEnd PyHeap SrcEquivCite SrcEquivAsmHeap SrcEntryEndToEnd.
 From MV.Gen Require Import Src.
 Local Open Scope Z_scope.
 
@@ -23,3 +23,23 @@ Theorem C11_src_valid : forall (sh : shape) (e' : enzyme) (k k' : nat) vector mo
   StructuredRecord_is_valid (src_entity i (generic_cls RModule e') (rotr j (pr_seq prod))) = Ok true.
 Proof. exact src_next_level. Qed.
 Print Assumptions C11_src_valid.
+
+(* AT THE ENTRY POINT: the object returned by vector.assemble(module, *modules, id=, name=) AS
+   REGENERATED — with the features, references and annotations it carries — and any rotation of its
+   sequence, is accepted by the regenerated is_valid of the generic next-level module class *)
+Theorem C11_src_entry_point : forall (sh : shape) (e' : enzyme) (k k' : nat) vector m ms kw hd prod ws (j : Z) (i : nat),
+  good_ent vector -> Forall good_ent (m :: ms) ->
+  map ent_id (m :: ms) = seq 0 (List.length (m :: ms)) -> ent_id vector = List.length (m :: ms) ->
+  deref_elems ((m :: ms) ++ [vector]) [] (heap_of (vector :: m :: ms)) = Ok hd ->
+  cpat (ent_cls vector) = shape_pat sh -> crole (ent_cls vector) = RVector ->
+  embeds (esite e') (rc_codes (esite e')) (eoff e') (eovh e') k k' sh = true ->
+  (0 < List.length (esite e'))%nat ->
+  fst (run_assemble (S (S (List.length (m :: ms)))) vector (m :: ms) kw) = Ok (prod, ws) ->
+  (forall INS vt, pr_seq prod = INS ++ vt -> target (ent_cls vector) (ent_seq_w vector) true = Some vt ->
+     Forall nucl INS /\ (eovh e' + 2 <= List.length INS)%nat) ->
+  occurs_once (esite e') (pr_seq prod) -> occurs_once (rc_codes (esite e')) (pr_seq prod) ->
+  Z.of_nat (List.length (pr_seq prod)) <= py_MAXSIZE ->
+  StructuredRecord_is_valid (src_entity i (generic_cls RModule e') (rotr j (pr_seq prod))) = Ok true
+  /\ StructuredRecord_is_valid (ENT i (generic_cls RModule e') prod) = Ok true.
+Proof. exact src_entry_next_level. Qed.
+Print Assumptions C11_src_entry_point.
